@@ -1381,9 +1381,56 @@ func (r *e2Run) stress(ctx context.Context) {
 				r.nodes[node].api.DispatchPublic(w, req)
 			}
 		}
+		sweep := func() {
+			// what main()'s expiry loop does on the leader (its 10 s timer rarely coincides with a group)
+			nd := r.nodes[node]
+			if nd.aliveA.Load() {
+				nd.ircNow().ExpireSessions()
+				r.count("stress_expiry_sweeps", 1)
+			}
+		}
+		lifecycle := func() {
+			// a whole session life in the same instant as everything else: create, register, quit
+			rctx, cancel := context.WithTimeout(ctx, 15*time.Second)
+			defer cancel()
+			code, body, _, err := r.request(rctx, node, "POST", "/robustirc/v1/session", nil, "")
+			var rep struct{ Sessionid, Sessionauth string }
+			if err != nil || code != 200 || json.Unmarshal(body, &rep) != nil || rep.Sessionid == "" {
+				return
+			}
+			h := map[string]string{"X-Session-Auth": rep.Sessionauth}
+			for i, line := range []string{fmt.Sprintf("NICK st%d", g), "USER st 0 * :st", "JOIN #sim"} {
+				b, _ := json.Marshal(map[string]interface{}{"Data": line, "ClientMessageId": uint64(7000000 + g*10 + i)})
+				r.request(rctx, node, "POST", "/robustirc/v1/"+rep.Sessionid+"/message", h, string(b))
+			}
+			r.request(rctx, node, "DELETE", "/robustirc/v1/"+rep.Sessionid, h, `{"Quitmessage":"done"}`)
+			r.count("stress_session_lifecycles", 1)
+		}
+		cfgWrite := func() {
+			rctx, cancel := context.WithTimeout(ctx, 15*time.Second)
+			defer cancel()
+			code, _, hdr, err := r.request(rctx, node, "GET", "/config", basic(), "")
+			if err != nil || code != 200 {
+				return
+			}
+			h := basic()
+			h["X-RobustIRC-Config-Revision"] = hdr.Get("X-RobustIRC-Config-Revision")
+			r.request(rctx, node, "POST", "/config", h, fmt.Sprintf("SessionExpiration = \"30m0s\"\nPostMessageCooloff = \"%dms\"\n[IRC]\n[[IRC.Operators]]\nName = \"root\"\nPassword = \"st%d\"\n", 50+g%300, g))
+			r.count("stress_config_writes", 1)
+		}
 		n := 2 + r.choice("stress/size", 4)
 		for k := 0; k < n; k++ {
-			switch r.choice("stress/op", 12) {
+			switch r.choice("stress/op", 17) {
+			case 12:
+				launch(sweep)
+			case 13:
+				launch(lifecycle)
+			case 14:
+				launch(cfgWrite)
+			case 15:
+				launch(get("/leader"))
+			case 16:
+				launch(get("/"))
 			case 0, 1, 2:
 				launch(post(k))
 			case 3:
